@@ -47,6 +47,9 @@ def tree_key():
             if "__pycache__" in d or "/states" in d:
                 continue
             for f in fs:
+                # (temporary configurations written by stages that may be running concurrently are not part of the tree)
+                if f.startswith("_") or f.startswith("SeqGen_run_") or f.startswith("MC_Laws"):
+                    continue
                 if f.endswith((".rs", ".tla", ".cfg", ".py", ".toml")):
                     files.append(os.path.join(d, f))
     for f in sorted(files):
